@@ -183,13 +183,23 @@ class Evaluator:
             return v not in c[3]
         raise Unknown("condition kind %s" % c[2])
 
-    def matching_rows(self, rows):
+    def matching_rows(self, rows, lenient=False):
         """rows whose conditions all hold; rows that trap before deciding are dropped; raises Unknown if a condition of a
-        candidate row cannot be evaluated"""
+        candidate row cannot be evaluated - unless lenient: then a condition over values the caller did not fix counts as
+        "may hold" (the caller must check that all matching rows agree on the result it is interested in)"""
         out = []
         for r in rows:
             try:
-                if all(self.cond_holds(c) for c in r[0]):
+                ok = True
+                for c in r[0]:
+                    try:
+                        if not self.cond_holds(c):
+                            ok = False
+                            break
+                    except Unknown:
+                        if not lenient:
+                            raise
+                if ok:
                     out.append(r)
             except Panic:
                 continue
